@@ -92,12 +92,34 @@ fn rows_shuffled(rng: &mut Rng, mut rows: Vec<String>) -> Vec<String> {
     rows
 }
 
+/// one time in forty: a first line longer than a reader's buffer (8 KiB, sometimes 64 KiB) whose text from the
+/// buffer boundary on looks like a data row — the whole line is the header, whatever its length
+fn long_header(rng: &mut Rng, f: &Facts, transitive: bool) -> Option<String> {
+    if !rng.chance(1, 40) || f.terms.is_empty() {
+        return None;
+    }
+    let boundary = if rng.chance(1, 8) { 65_536 } else { 8_192 };
+    let mut h = String::from("#Format: ");
+    while h.len() < boundary {
+        h.push(if h.len() % 97 == 0 { ' ' } else { 'x' });
+    }
+    let t = rng.pick(&f.terms).id;
+    if transitive {
+        h.push_str(&format!("{}\tphantom\t7360\tSRC360", hp(t)));
+    } else {
+        h.push_str(&format!("7360\tSRC360\t{}", hp(t)));
+    }
+    Some(h)
+}
+
 pub fn render_genes_to_phenotype(rng: &mut Rng, f: &Facts) -> Vec<u8> {
     let header = match rng.below(3) {
         0 => "ncbi_gene_id\tgene_symbol\thpo_id\thpo_name\tfrequency\tdisease_id",
         1 => "#Format: entrez-gene-id<tab>entrez-gene-symbol<tab>HPO-Term-ID",
         _ => "ncbi_gene_id\tgene_symbol\thpo_id",
     };
+    let long = long_header(rng, f, false);
+    let header: &str = long.as_deref().unwrap_or(header);
     let mut rows = vec![];
     for g in &f.genes {
         for t in &g.terms {
@@ -123,6 +145,8 @@ pub fn render_phenotype_to_genes(rng: &mut Rng, f: &Facts) -> Vec<u8> {
         0 => "hpo_id\thpo_name\tncbi_gene_id\tgene_symbol\tdisease_id",
         _ => "#Format: HPO-id<tab>HPO label<tab>entrez-gene-id<tab>entrez-gene-symbol",
     };
+    let long = long_header(rng, f, true);
+    let header: &str = long.as_deref().unwrap_or(header);
     let mut rows = vec![];
     for g in &f.genes {
         for t in &g.terms {
